@@ -2,6 +2,7 @@
 # tools/confirm_mutant.sh <worktree> <mutdir>  - confirm a sub-agent's mutant in its scratch worktree
 W=$1; M=$2
 cd "$W" || exit 2
+export OMP_NUM_THREADS=1 OPENBLAS_NUM_THREADS=1 MKL_NUM_THREADS=1
 git checkout -q -- . ; 
 reb() { if grep -q c_rain.c "$M/patch.diff"; then /venv/bin/python setup.py build_ext --inplace >/dev/null 2>&1; fi; }
 reb
@@ -9,9 +10,18 @@ reb
 git apply "$M/patch.diff" || { echo "APPLY-FAILED" > "$M/confirm.txt"; exit 1; }
 reb
 /venv/bin/python "$M/demo.py" > "$M/demo_mut.out" 2>&1; mut=$?
-/venv/bin/python -m pytest -q -p no:cacheprovider --timeout=900 --continue-on-collection-errors 2>&1 | grep ^FAILED | sed 's/ - .*//' | sort > "$M/fail_mut.txt"
+timeout 1500 /venv/bin/python -m pytest -q -p no:cacheprovider --timeout=900 --continue-on-collection-errors 2>&1 | grep ^FAILED | sed 's/ - .*//' | sort > "$M/fail_mut.txt"
 git checkout -q -- . ; reb
 sort /tmp/wt/baseline_fail.txt > /tmp/wt/.bf.$$ 
+# tests known to be flaky under machine load are re-run alone with the mutant applied
+extra=$(comm -13 /tmp/wt/.bf.$$ "$M/fail_mut.txt" | sed 's/^FAILED //')
+if [ -n "$extra" ]; then
+  git apply "$M/patch.diff"; reb
+  still=""
+  for t in $extra; do timeout 900 /venv/bin/python -m pytest -q -p no:cacheprovider "$t" >/dev/null 2>&1 || still="$still $t"; done
+  git checkout -q -- . ; reb
+  if [ -z "$still" ]; then grep -v -F -f <(echo "$extra") "$M/fail_mut.txt" > "$M/fail_mut2.txt"; mv "$M/fail_mut2.txt" "$M/fail_mut.txt"; echo "flaky-under-load (pass alone): $extra" > "$M/flaky.txt"; fi
+fi
 if diff -q /tmp/wt/.bf.$$ "$M/fail_mut.txt" >/dev/null; then suite=same; else suite="DIFF:$(diff /tmp/wt/.bf.$$ "$M/fail_mut.txt" | tr '\n' ' ')"; fi
 rm -f /tmp/wt/.bf.$$
 echo "demo_base=$base demo_mut=$mut suite=$suite" | tee "$M/confirm.txt"
